@@ -155,11 +155,11 @@ func c19Worker(args []string) {
 	// Two objects from the same bytes: one is shared by the goroutines, the other gives the
 	// reference outcomes afterwards (so that nothing is evaluated, and no lazily built state is
 	// warmed, before the goroutines start).
-	tok, err := biscuit.Unmarshal(bs)
+	tok, err := unmarshalOwned(bs)
 	if err != nil {
 		fatal("%v", err)
 	}
-	tokRef, err := biscuit.Unmarshal(bs)
+	tokRef, err := unmarshalOwned(bs)
 	if err != nil {
 		fatal("%v", err)
 	}
